@@ -76,6 +76,8 @@ let run (path : String.t) =
       if not (obs_c01_ok evs) then (add "c01"; add "c08");
       if not (obs_c16_ok evs) then add "c16";
       if not (obs_c09_bounded_ok evs) then add "c09";
+      if not (obs_no_poll_after_end evs) then (add "c09"; add "c01");
+      if not (obs_no_pull_after_close evs) then (add "c16"; add "c09");
       (* a peer failed or left somewhere in this history (a sink answered Err, a publisher stream yielded an
          error or ended): what is left undone afterwards is also harm done to the others (C08) *)
       let had_failures = List.exists (function ESinkReady (_, RErr) | ESinkFlush (_, RErr) | ESinkSend (_, _, false)
